@@ -24,10 +24,14 @@ import (
 	"github.com/free5gc/ike/message"
 	"github.com/free5gc/ike/security"
 	"github.com/free5gc/ike/security/dh"
+	"github.com/free5gc/ike/security/encr"
+	"github.com/free5gc/ike/security/integ"
+	"github.com/free5gc/ike/security/prf"
 )
 
 func init() {
 	commands["race"] = raceMain
+	commands["cold"] = coldMain
 }
 
 type progSet struct {
@@ -457,6 +461,9 @@ func raceMain(argv []string) int {
 		res.Failures = append(res.Failures, J{"prop": "C18", "sig": "interference:shared-input-written",
 			"what": "the read-only input slice shared by concurrent decoders was written during the run", "replay": J{"fam": "race-set"}})
 	}
+	if why := faultIsolation(*seed); why != "" {
+		res.Failures = append(res.Failures, J{"prop": "C18", "sig": "interference:fault-not-isolated", "what": why, "replay": J{"fam": "race-set"}})
+	}
 	if randDup > 0 {
 		res.Failures = append(res.Failures, J{"prop": "C18", "sig": "interference:random-number-repeated",
 			"what": fmt.Sprintf("%d random numbers were handed out more than once while goroutines drew concurrently", randDup), "replay": J{"fam": "race-set"}})
@@ -473,6 +480,113 @@ func raceMain(argv []string) int {
 		return 2
 	}
 	if len(res.Failures) > 0 {
+		return 1
+	}
+	return 0
+}
+
+// faultIsolation: a failure of the random source during ONE operation on ONE SA is reported by that operation and leaves
+// nothing behind in the library: the same kinds of operations on other SAs (and on the same one) work afterwards.  Runs
+// sequentially after the goroutines have finished (it replaces crypto/rand.Reader).
+func faultIsolation(seed int64) string {
+	e := newEnv(seed)
+	mk := func(name string, salt int) string {
+		suite := suiteByIndex(salt%9 + 1)
+		o := actSaNew(e, J{"name": name, "suite": suite, "keys": patternKeys(suite, salt), "nospy": true})
+		if o["infra"] != nil {
+			return fmt.Sprint(o["infra"])
+		}
+		return ""
+	}
+	for i, n := range []string{"F1", "F2", "F3"} {
+		if why := mk(n, 3+i); why != "" {
+			return "" // not a verdict of this probe
+		}
+	}
+	msg := J{"ispi": be(9, 8), "rspi": be(8, 8), "maj": 2, "min": 0, "xt": 37, "flags": 8, "mid": be(1, 4), "payloads": []any{J{"k": "NONCE", "data": fillPattern("seeded", 21, 5)}}}
+	for failat := 0; failat < 4; failat++ {
+		bad := actProtect(e, J{"sa": "F1", "role": true, "msg": msg, "rand": J{"mode": "fail", "seed": 1, "failat": failat}})
+		if fo, _ := bad["faultok"].(bool); !fo {
+			return fmt.Sprintf("a random-source failure at read %d of a protect operation was not reported as an error", failat)
+		}
+		for _, n := range []string{"F2", "F1", "F3"} {
+			ok := actProtect(e, J{"sa": n, "role": n != "F3", "msg": msg, "rand": "system"})
+			if er, _ := ok["err"].(bool); er {
+				return fmt.Sprintf("after a random-source failure (read %d) during a protect on one SA, a protect on SA %s fails: %v", failat, n, ok["errmsg"])
+			}
+		}
+		if x, err := security.GenerateRandomNumber(); err != nil || x == nil {
+			return fmt.Sprintf("after a random-source failure during a protect, GenerateRandomNumber fails: %v", err)
+		}
+	}
+	return ""
+}
+
+// cold start: the very first use of the library in a process is made by many goroutines at once -- look-ups in every algorithm
+// registry by name and by transform.  Everything registered must be found by everyone (and the race detector stays silent).
+func coldMain(argv []string) int {
+	fs := flag.NewFlagSet("cold", flag.ExitOnError)
+	n := fs.Int("n", 64, "goroutines")
+	fs.Parse(argv)
+	start := make(chan struct{})
+	var wg sync.WaitGroup
+	miss := make([]string, *n)
+	for g := 0; g < *n; g++ {
+		wg.Add(1)
+		go func(g int) {
+			defer wg.Done()
+			defer func() {
+				if r := recover(); r != nil {
+					miss[g] = fmt.Sprintf("panic: %v", r)
+				}
+			}()
+			<-start
+			order := []int{0, 1, 2, 3}
+			for k := 0; k < 4; k++ {
+				switch order[(k+g)%4] {
+				case 0:
+					for _, nm := range dhNames {
+						if dh.StrToType(nm) == nil {
+							miss[g] += " dh:" + nm
+						}
+					}
+					if dh.DecodeTransform(&message.Transform{TransformType: 4, TransformID: 14}) == nil {
+						miss[g] += " dh-transform-14"
+					}
+				case 1:
+					for _, nm := range encrNames {
+						if encr.StrToType(nm) == nil || encr.StrToKType(nm) == nil {
+							miss[g] += " encr:" + nm
+						}
+					}
+				case 2:
+					for _, nm := range integNames {
+						if integ.StrToType(nm) == nil || integ.StrToKType(nm) == nil {
+							miss[g] += " integ:" + nm
+						}
+					}
+				case 3:
+					for _, nm := range prfNames {
+						if prf.StrToType(nm) == nil {
+							miss[g] += " prf:" + nm
+						}
+					}
+				}
+			}
+		}(g)
+	}
+	close(start)
+	wg.Wait()
+	bad := 0
+	for g, m := range miss {
+		if m != "" {
+			bad++
+			if bad <= 3 {
+				fmt.Printf("COLD-MISS goroutine %d:%s\n", g, m)
+			}
+		}
+	}
+	if bad > 0 {
 		return 1
 	}
 	return 0
